@@ -158,3 +158,5 @@ V('C19', 'revert-fix-memory-not-rendered', 'edb/schema/utils.py',
 from sa.selftest import VP  # noqa
 VP('C19', 'C19-e2', 'C19.L', 'cache-key-equality')
 VP('C19', 'C19-e3', 'C19.R11', 'unit=EiB')
+VP('C19', 'C19-f1', 'C19.R12', 'source-describes-the-operation')
+VP('C19', 'C19-f2', 'C19.R13', 'later-scope-wins')
